@@ -126,6 +126,25 @@ func (e *Env) resolveType(s string) (types.Type, string) {
 		}
 		return types.NewSlice(t), "Slice"
 	}
+	if strings.HasPrefix(s, "gomap[") {
+		// a Go map type (for dyn/as): gomap[K]V
+		d := 0
+		for i := 5; i < len(s); i++ {
+			if s[i] == '[' {
+				d++
+			} else if s[i] == ']' {
+				d--
+				if d == 0 {
+					kt, _ := e.resolveType(s[6:i])
+					vt, _ := e.resolveType(s[i+1:])
+					if kt == nil || vt == nil {
+						e.fail("cannot resolve %s", s)
+					}
+					return types.NewMap(kt, vt), "Int"
+				}
+			}
+		}
+	}
 	if strings.HasPrefix(s, "map[") {
 		// ghost maps: map[K]V  -> (Array K V)
 		d := 0
@@ -702,6 +721,20 @@ func (e *Env) call(x *ECall) Term {
 			e.fail("dyn needs a type")
 		}
 		return Term{S: sx("=", sx("if_tag", a.S), fmt.Sprint(vc.ss().typeTag(tt))), Sort: "Bool"}
+	case "implements":
+		// implements(x, Iface): the dynamic type of x implements the named interface
+		a := e.tr(x.Args[0])
+		id, ok := x.Args[1].(*EIdent)
+		if !ok {
+			e.fail("implements needs an interface name")
+		}
+		it, _ := e.resolveType(id.Name)
+		if it == nil {
+			e.fail("unknown interface %s", id.Name)
+		}
+		f := "implements_" + mangle(shortTypeName(it))
+		vc.declareFun(f, []string{"Int"}, "Bool")
+		return Term{S: and(not(sx("=", a.S, "iface_nil")), sx(f, sx("if_tag", a.S))), Sort: "Bool"}
 	case "as":
 		a := e.tr(x.Args[0])
 		var tt types.Type
@@ -774,6 +807,18 @@ func (e *Env) call(x *ECall) Term {
 			e.fail("fn() needs a function name string")
 		}
 		return Term{S: vc.funcConst(name.Val), Sort: "Int"}
+	case "deref":
+		// deref(p): the value a pointer to a non-struct value points to
+		a := e.tr(x.Args[0])
+		if a.T == nil {
+			e.fail("deref() needs a typed pointer")
+		}
+		pt, ok := types.Unalias(a.T).Underlying().(*types.Pointer)
+		if !ok {
+			e.fail("deref() needs a pointer")
+		}
+		name, sortName := vc.cellVar(pt.Elem())
+		return Term{S: sx("select", vc.get(e.st, name, sortName), a.S), Sort: vc.ss().sortOf(pt.Elem()), T: pt.Elem()}
 	case "mkiface":
 		a := e.tr(x.Args[0])
 		b := e.tr(x.Args[1])
